@@ -372,6 +372,11 @@ class Run:
             f"{new_viol} new violation signature(s), {len(known_printed)} known finding(s), {len(self.inconc)} inconclusive, "
             f"{ev['wall_s']}s")
         self.cleanup()
+        if new_viol:
+            # a violation may well be the reason why later classes were never reached
+            if missing:
+                log(f"NOTE must-hit classes not observed in this (violating) run: {missing}")
+            return 1
         if missing:
             log(f"HARNESS-ERROR must-hit classes not observed: {missing}")
             return 2
